@@ -85,6 +85,8 @@ method, because no additional init parameters are needed.
 """
 
 
+from copy import deepcopy
+
 from pywbem._nocasedict import NocaseDict
 
 from pywbem import CIMInstanceName, CIMInstance, CIMError, CIMClass, \
@@ -784,8 +786,10 @@ class InstanceWriteProvider(BaseProvider):
         # Modify the instance path for each namespace
         for ns, path in modified_instance_paths.items():
             instance_store = self.cimrepository.get_instance_store(ns)
-            modified_instance.path = path
-            instance_store.update(modified_instance.path, modified_instance)
+            # Each namespace gets its own object with its own path
+            ns_instance = deepcopy(modified_instance)
+            ns_instance.path = path
+            instance_store.update(ns_instance.path, ns_instance)
 
     @staticmethod
     def create_new_instance_path(creation_class, new_instance, namespace):
